@@ -171,16 +171,21 @@ LoadWarnings(st0, fs, dirs, force, enforceNew, overwrite, nr) ==
 LoadRules(st0, fs, dirs, force, enforceNew) == LoadRulesOv(st0, fs, dirs, force, enforceNew, TRUE)
 
 (***************************************************************************)
-(* Decisions: which single roles a name allows (references followed, an    *)
-(* undefined name denies - no default rule is configured in this model)    *)
+(* Decisions: which single roles a name allows (references followed).  A   *)
+(* name that is undefined - asked for directly or reached through a        *)
+(* reference - is decided by the default rule: dd is the set of roles the  *)
+(* default rule allows, {} when no usable default rule is configured.      *)
 (***************************************************************************)
-RECURSIVE Allowed(_, _, _)
-Allowed(rules, n, fuel) ==
-  IF n \notin Names \/ rules[n].k = "none" \/ fuel = 0 THEN {}
+RECURSIVE AllowedD(_, _, _, _)
+AllowedD(rules, n, fuel, dd) ==
+  IF fuel = 0 THEN {}
+  ELSE IF n \notin Names \/ rules[n].k = "none" THEN dd
   ELSE IF rules[n].k = "roles" THEN rules[n].r
   ELSE IF rules[n].k = "any" THEN {"*"}          \* the always-allow rule: every role (written "*")
-  ELSE Allowed(rules, rules[n].n, fuel - 1)
-Decisions(rules) == [n \in Names |-> Allowed(rules, n, 4)]
+  ELSE AllowedD(rules, rules[n].n, fuel - 1, dd)
+DecisionsD(rules, dd) == [n \in Names |-> AllowedD(rules, n, 4, dd)]
+Allowed(rules, n, fuel) == AllowedD(rules, n, fuel, {})
+Decisions(rules) == DecisionsD(rules, {})
 
 (***************************************************************************)
 (* C09 / C11 - the declarative reading: the effective definition of a name *)
